@@ -351,7 +351,7 @@ func runC09(c *ctx, r *Report) error {
 	if !c.quick {
 		per = 300
 	}
-	return lwStandard(c, r, func(cs Case) (string, string) {
+	if err := lwStandard(c, r, func(cs Case) (string, string) {
 		pick := func(s string) string {
 			var out []string
 			for _, d := range strings.Split(s, ";") {
@@ -366,7 +366,16 @@ func runC09(c *ctx, r *Report) error {
 			return "rule-diagnostics-differ-from-per-job-model", "the diagnostics of the per-job rules (matrix, credentials, env-var, id, permissions, if-cond) differ from the model in which they are a function of each job alone"
 		}
 		return "", ""
-	}, per, true)
+	}, per, true); err != nil {
+		return err
+	}
+	// AL.Props.C09Expr.job_depends_on_needed_only is about AL.RuleExpr: the expression rule's diagnostics per job
+	return exStandard(c, r, func(cs Case) (string, string) {
+		if cs.Impl != cs.Model {
+			return "expression-diagnostics-differ-from-per-job-model", "the expression diagnostics differ from the model of rule_expression.go in which a job is checked from the header's scope and the jobs it needs"
+		}
+		return "", ""
+	}, per/2, false)
 }
 
 func min(a, b int) int {
